@@ -63,8 +63,10 @@ class Chunk:
                 self.data = [int(x) for x in chunk_data[6:]]
             elif self.data_type == Attribute.Type.Bool:
                 self.data = [bool(int(x)) for x in chunk_data[6:]]
+            elif self.data_type == Attribute.Type.Complex:
+                self.data = [complex(x) for x in chunk_data[6:]]
             else:
-                # Attribute type cannot be exported
+                # strings are kept as they are
                 self.data = chunk_data[6:]
 
         elif self.type == Chunk.Type.ATTS:
